@@ -35,3 +35,183 @@ Theorem C17_delete_topic_metrics_v0_refuted :
   exists c t r k, names_topic c t k = true /\ reg_get (delete_topic_metrics_v0 c t r) k <> None.
 Proof. exact delete_topic_metrics_v0_refuted. Qed.
 Print Assumptions C17_delete_topic_metrics_v0_refuted.
+
+(* ==== metrics_equal_state ====
+   FULL STATEMENT (the property at its strongest reading):
+     forall sc clusters h sy now sy' k,
+       sys_run sc (init_sys clusters) h = Some sy -> scrape sc now sy = Some sy' ->
+       reg_get (s_reg sy') k = expected sc now (s_st sy') k
+   for every history h of ingest, deletions, status requests AND earlier scrapes.  Proved below:
+   (1) C17_scrape_reports_state: for every system state whatsoever (hence every history), after a scrape every series the live
+       state calls for is present with the state's value (each offset / lag / status attributed to its own group, topic and
+       partition id through [written] / [expected]);
+   (2) C17_scrape_never_invents: a series the state does not call for is absent after the scrape unless it was in the registry
+       before that scrape; and a scrape leaves no expired group behind (C17_scrape_purges_expired);
+   (3) C17_metrics_equal_state_first_scrape: exact equality for every history without an earlier scrape (any ingest, deletion,
+       fetch and status requests in any order, then the scrape) - the property's own quantifier "ingest histories followed by reads";
+   (4) the no_series_outlives theorems: every deletion path removes the item's series and the next scrape does not bring them back.
+   MISSING for the full statement: that a series written by an EARLIER scrape and not removed by a deletion path is still called
+   for at the later scrape, i.e. that what a scrape writes only ever grows between deletions (partition lists and broker
+   partitions never shrink, a window that is complete stays complete).  That is a monotonicity invariant of Storage.step /
+   Ring.ring_step (window shape, RingProofs / StorageProofs), not of this layer; the probe compares the exact registry on
+   every generated history (several scrapes per history). *)
+Theorem C17_scrape_reports_state :
+  forall sc now sy sy' k,
+    scrape sc now sy = Some sy' -> expected sc now (s_st sy') k <> None ->
+    reg_get (s_reg sy') k = expected sc now (s_st sy') k.
+Proof. exact scrape_reports_state. Qed.
+Print Assumptions C17_scrape_reports_state.
+
+Theorem C17_scrape_never_invents :
+  forall sc now sy sy' k,
+    scrape sc now sy = Some sy' ->
+    reg_get (s_reg sy') k = expected sc now (s_st sy') k \/
+    (expected sc now (s_st sy') k = None /\ reg_get (s_reg sy') k = reg_get (s_reg sy) k).
+Proof. exact scrape_spec. Qed.
+Print Assumptions C17_scrape_never_invents.
+
+Theorem C17_metrics_equal_state_first_scrape :
+  forall sc clusters h sy now sy' k,
+    forallb (fun no => not_scrape (snd no)) h = true ->
+    sys_run sc (init_sys clusters) h = Some sy -> scrape sc now sy = Some sy' ->
+    reg_get (s_reg sy') k = expected sc now (s_st sy') k.
+Proof. exact metrics_equal_state_first_scrape. Qed.
+Print Assumptions C17_metrics_equal_state_first_scrape.
+
+(* the combination, named as the README asks: what is proved of the full statement for ALL histories *)
+Theorem C17_metrics_equal_state_partial :
+  forall sc clusters h sy now sy' k,
+    sys_run sc (init_sys clusters) h = Some sy -> scrape sc now sy = Some sy' ->
+    (expected sc now (s_st sy') k <> None -> reg_get (s_reg sy') k = expected sc now (s_st sy') k) /\
+    (reg_get (s_reg sy') k <> expected sc now (s_st sy') k ->
+       expected sc now (s_st sy') k = None /\ reg_get (s_reg sy') k = reg_get (s_reg sy) k).
+Proof.
+  intros sc clusters h sy now sy' k _ Hs. split.
+  - exact (scrape_reports_state sc now sy sy' k Hs).
+  - intros Hne. destruct (scrape_spec sc now sy sy' k Hs) as [Hc|Hx]; [contradiction|exact Hx].
+Qed.
+Print Assumptions C17_metrics_equal_state_partial.
+
+(* ==== each offset attributed to its OWN partition ====
+   FULL STATEMENT: forall sc now st c t p, expected sc now st (KTopic c t p) = broker_offset st c t p.
+   It is false (finding C17:topic-offset-position, not repaired); proved with exactly the excluding guard. *)
+Theorem C17_topic_offset_own_partition_partial :
+  forall sc now st c t p,
+    topic_no_gap st c t = true -> expected sc now st (KTopic c t p) = broker_offset st c t p.
+Proof. exact topic_offset_own_partition. Qed.
+Print Assumptions C17_topic_offset_own_partition_partial.
+
+Theorem C17_topic_offset_position_refuted :
+  exists sc now st c t p, expected sc now st (KTopic c t p) <> broker_offset st c t p.
+Proof. exact topic_offset_position_refuted. Qed.
+Print Assumptions C17_topic_offset_position_refuted.
+
+(* ==== no_series_outlives: one theorem per deletion path; now' is the time of the next scrape ==== *)
+Theorem C17_no_series_outlives_tombstone_or_reaper :
+  forall sc now now' sy sy1 sy2 c g k,
+    sys_step sc now sy (OGroupGone c g) = Some sy1 -> scrape sc now' sy1 = Some sy2 ->
+    names_group c g k = true -> reg_get (s_reg sy2) k = None /\ find_group (s_st sy2) c g = None.
+Proof. exact no_series_outlives_group_gone. Qed.
+Print Assumptions C17_no_series_outlives_tombstone_or_reaper.
+
+Theorem C17_no_series_outlives_api_delete_group :
+  forall sc now now' sy sy1 sy2 c g k,
+    get (s_st sy) c <> None ->
+    sys_step sc now sy (OStorage (DeleteGroup c g 0)) = Some sy1 -> scrape sc now' sy1 = Some sy2 ->
+    names_group c g k = true -> reg_get (s_reg sy2) k = None /\ find_group (s_st sy2) c g = None.
+Proof. exact no_series_outlives_api_group. Qed.
+Print Assumptions C17_no_series_outlives_api_delete_group.
+
+Theorem C17_no_series_outlives_api_delete_group_topic :
+  forall sc now now' sy sy1 sy2 c g t k,
+    get (s_st sy) c <> None -> t <> 0 ->
+    sys_step sc now sy (OStorage (DeleteGroup c g t)) = Some sy1 -> scrape sc now' sy1 = Some sy2 ->
+    names_group_topic c g t k = true -> reg_get (s_reg sy2) k = None.
+Proof. exact no_series_outlives_api_group_topic. Qed.
+Print Assumptions C17_no_series_outlives_api_delete_group_topic.
+
+Theorem C17_no_series_outlives_topic_deletion :
+  forall sc now now' sy sy1 sy2 c t k,
+    sys_step sc now sy (OTopicDeleted c t) = Some sy1 -> scrape sc now' sy1 = Some sy2 ->
+    names_topic c t k = true -> reg_get (s_reg sy2) k = None.
+Proof. exact no_series_outlives_topic. Qed.
+Print Assumptions C17_no_series_outlives_topic_deletion.
+
+Theorem C17_no_series_outlives_expiry :
+  forall sc now sy sy' c g k,
+    group_expired (sc_st sc) now (s_st sy) c g = true -> scrape sc now sy = Some sy' ->
+    names_group c g k = true -> reg_get (s_reg sy') k = None /\ find_group (s_st sy') c g = None.
+Proof. exact no_series_outlives_expiry. Qed.
+Print Assumptions C17_no_series_outlives_expiry.
+
+Theorem C17_no_series_outlives_expiry_on_fetch :
+  forall sc now sy sy1 rep c g k,
+    group_expired (sc_st sc) now (s_st sy) c g = true ->
+    sys_storage sc now sy (FetchConsumer c g) = Some (sy1, rep) ->
+    names_group c g k = true ->
+    rep = RNil /\ reg_get (s_reg sy1) k = None /\ find_group (s_st sy1) c g = None.
+Proof. exact no_series_outlives_expiry_fetch. Qed.
+Print Assumptions C17_no_series_outlives_expiry_on_fetch.
+
+Theorem C17_scrape_purges_expired :
+  forall sc now sy sy' c g grp,
+    scrape sc now sy = Some sy' -> find_group (s_st sy') c g = Some grp -> expired (sc_st sc) now (g_last grp) = false.
+Proof. exact scrape_purges_expired. Qed.
+Print Assumptions C17_scrape_purges_expired.
+
+(* FULL STATEMENT of "once expired, no endpoint reports it": false for the list endpoints until the lazy purge has run
+   (finding C17:expired-group-listed, not repaired); what holds is the three theorems above. *)
+Theorem C17_expired_group_listed_refuted :
+  exists sc sy now c g sy' l,
+    group_expired (sc_st sc) now (s_st sy) c g = true /\
+    sys_storage sc now sy (FetchConsumers c) = Some (sy', RStrings l) /\ In g l.
+Proof. exact expired_group_listed_refuted. Qed.
+Print Assumptions C17_expired_group_listed_refuted.
+
+(* ==== json_equals_state: the status / lag endpoints serve the evaluation of the stored group ==== *)
+Theorem C17_json_status_equals_state :
+  forall sc now sy c g show_all sy' v,
+    json_status sc now sy c g show_all = Some (sy', Some v) ->
+    sy' = sy /\ exists gs, group_view sc now (s_st sy) c g = Some gs /\ v = (if show_all then gs else filter_view gs).
+Proof. exact json_status_equals_state. Qed.
+Print Assumptions C17_json_status_equals_state.
+
+Theorem C17_json_status_notfound :
+  forall sc now sy c g show_all sy',
+    json_status sc now sy c g show_all = Some (sy', None) -> find_group (s_st sy') c g = None.
+Proof. exact json_status_notfound. Qed.
+Print Assumptions C17_json_status_notfound.
+
+(* ==== the behaviour before the repairs 8eaa8f9 and ff5734c (scrape_v0 / nil_end_panics), kept as documentation ==== *)
+Theorem C17_expiry_outlives_v0_refuted :
+  exists sc sy now c g k sy',
+    group_expired (sc_st sc) now (s_st sy) c g = true /\ names_group c g k = true /\
+    scrape_v0 sc now sy = Some sy' /\ find_group (s_st sy') c g = None /\ reg_get (s_reg sy') k <> None.
+Proof. exact expiry_outlives_v0_refuted. Qed.
+Print Assumptions C17_expiry_outlives_v0_refuted.
+
+(* a status entry with Complete = 1.0 and End = nil (what the evaluator produced for the window [nil] before 21f3585) made the
+   unguarded handler panic; the guarded one reports the lag and skips offset / status *)
+Theorem C17_scrape_nil_end_v0_refuted :
+  exists gs, nil_end_panics gs = true /\
+             reg_get (set_group 4 1 [] gs) (KPart PLag 4 1 1 1) = Some 0 /\
+             reg_get (set_group 4 1 [] gs) (KPart POffset 4 1 1 1) = None.
+Proof. exact scrape_nil_end_v0_refuted. Qed.
+Print Assumptions C17_scrape_nil_end_v0_refuted.
+
+(* ==== non-vacuity ==== *)
+Example C17_nonvacuous :
+  exists sy1 sy2 sy3,
+    w_ingest (wsc 1 604800) [1]
+      [(1000, SetBrokerOffset 1 1 0 2 100); (1000, SetBrokerOffset 1 2 0 1 50);
+       (1000, SetConsumerOffset 1 1 1 0 90 1 999000); (1000, SetConsumerOffset 1 2 2 0 50 2 999500);
+       (1000, SetConsumerOwner 1 1 1 0 7 8)] = Some sy1 /\
+    scrape (wsc 1 604800) 1001 sy1 = Some sy2 /\
+    reg_get (s_reg sy2) (KPart POffset 1 1 1 0) = Some 90 /\
+    reg_get (s_reg sy2) (KPart PLag 1 1 1 0) = Some 10 /\
+    reg_get (s_reg sy2) (KTopic 1 2 0) = Some 50 /\
+    sys_step (wsc 1 604800) 1002 sy2 (OTopicDeleted 1 1) = Some sy3 /\
+    reg_get (s_reg sy3) (KPart POffset 1 1 1 0) = None /\
+    reg_get (s_reg sy3) (KGroup GStatus 1 1) <> None.
+Proof. exact scrape_nonvacuous. Qed.
+Print Assumptions C17_nonvacuous.
